@@ -422,3 +422,100 @@ func VerifH08s() {
 		vReach("one-code-for-all")
 	}
 }
+
+// ---------------------------------------------------------------------------
+// H07p — a portal keeps the parameters of ITS Bind (C07, C08): Bind p1 with
+// n1 parameters, Bind p2 with n2 parameters (names, counts, values and NULLs
+// symbolic), then Execute p3 and Execute p4 through the command loop: each
+// Execute hands the statement the parameter values of the latest Bind of that
+// portal name — whatever was bound to other portals in between.
+// ---------------------------------------------------------------------------
+type vParamSet struct {
+	null []bool
+	vals [][]byte
+}
+
+func vSymParams(max int) (vParamSet, []byte) {
+	n := vChoose(max + 1)
+	ps := vParamSet{null: make([]bool, n), vals: make([][]byte, n)}
+	body := vU16(n)
+	for i := 0; i < n; i++ {
+		ps.null[i] = nondetBool()
+		if ps.null[i] {
+			body = append(body, 0xFF, 0xFF, 0xFF, 0xFF)
+		} else {
+			ps.vals[i] = nondetBytes(1)
+			body = append(body, vU32(1)...)
+			body = append(body, ps.vals[i]...)
+		}
+	}
+	return ps, body
+}
+
+func VerifH07p() {
+	maxp := vParam("PARAMS", 2)
+	p1, p2, p3, p4 := vSymName(), vSymName(), vSymName(), vSymName()
+	ps1, b1 := vSymParams(maxp)
+	ps2, b2 := vSymParams(maxp)
+	sync := vMsgBytes('S', nil)
+	bind := func(p []byte, params []byte) []byte {
+		return vMsgBytes('B', vCat(vCStr(p), vCStr([]byte("a")), vU16(0), params, vU16(0)))
+	}
+	exec := func(p []byte) []byte { return vMsgBytes('E', vCat(vCStr(p), vU32(0))) }
+	input := vCat(bind(p1, b1), bind(p2, b2), exec(p3), sync, exec(p4), sync)
+	w := vNewWorld(input, 64)
+	w.execMenu = 1
+	vAssert("set-ok", w.ses.Statements.Set(w.ctx, "a", w.mkStmt(1, 0)) == nil)
+	expect := func(p []byte) (vParamSet, bool) {
+		if vEqBytes(p, p2) {
+			return ps2, true
+		}
+		if vEqBytes(p, p1) {
+			return ps1, true
+		}
+		return vParamSet{}, false
+	}
+	checkExec := func(p []byte, tag string) {
+		before := len(w.events)
+		got, err := w.step()
+		vAssert("connection-stays-up", err == nil)
+		want, known := expect(p)
+		var ran *vEvent
+		for k := before; k < len(w.events); k++ {
+			if w.events[k].kind == 'x' {
+				ran = &w.events[k]
+			}
+		}
+		if !known {
+			vAssert(tag+"unknown-portal-is-error", got == "E" && ran == nil)
+		} else {
+			vAssert(tag+"runs", ran != nil)
+			if ran != nil {
+				vAssert(tag+"parameter-count-of-its-bind", len(ran.params) == len(want.null))
+				if len(ran.params) == len(want.null) {
+					for i := range want.null {
+						v := ran.params[i].Value()
+						vAssert(tag+"parameter-null-of-its-bind", (v == nil) == want.null[i])
+						if !want.null[i] && v != nil {
+							vAssert(tag+"parameter-value-of-its-bind", vEqBytes(v, want.vals[i]))
+						}
+					}
+				}
+			}
+		}
+		z, errZ := w.step()
+		vAssert("sync-ready", errZ == nil && z == "Z")
+	}
+	got, err := w.step()
+	vAssert("bind-1", err == nil && got == "2")
+	got, err = w.step()
+	vAssert("bind-2", err == nil && got == "2")
+	checkExec(p3, "first-execute-")
+	checkExec(p4, "second-execute-")
+	if !vEqBytes(p1, p2) && vEqBytes(p3, p1) && len(ps1.null) >= 1 && len(ps2.null) >= 1 {
+		vReach("earlier-portal-executed-after-later-bind")
+	}
+	if vEqBytes(p1, p2) && vEqBytes(p3, p1) {
+		vReach("rebound-portal-executed")
+	}
+}
